@@ -23,6 +23,7 @@ type VM struct {
 
 	backtrace []pos
 	frame     frame
+	verif     verifVM
 }
 
 func (v *VM) Set(key string, value Value) { v.globals.Set(key, value) }
@@ -82,7 +83,9 @@ func (v *VM) run(codes []instruction, slots int) (rets []Value, err error) {
 			err = vm.btErr(r)
 		}
 	}()
+	verifTop(&vm, slots)
 	vm.exec()
+	verifEnd(&vm)
 	rets = vm.stack[slots:]
 	return rets, nil
 }
@@ -103,7 +106,9 @@ func (v *VM) Func(fnc Value, xRets int, params ...Value) (rets []Value, err erro
 			err = vm.btErr(r)
 		}
 	}()
+	verifTop(&vm, 0)
 	vm.exec()
+	verifEnd(&vm)
 	return vm.stack[len(vm.stack)-xRets:], nil
 }
 
@@ -242,7 +247,9 @@ func mkFunc(args, rets, slots int, tokens []instruction) func(v *VM) {
 		}
 		v.stack = append(v.stack, empty...)
 		topN := len(v.stack)
+		verifEnter(v, args, rets, slots)
 		v.exec()
+		verifLeave(v, topN, rets)
 		v.stack = append(v.stack[:v.frame.BaseN], v.stack[topN:]...)
 		for i := 0; i < rets; i++ {
 			v.stack[len(v.stack)-rets+i] = v.stack[len(v.stack)-rets+i].assign(Type(tokens[args+i].A))
